@@ -727,3 +727,108 @@ Proof.
   destruct (owner_unique_py _ _ _ _ G P2) as (s2 & F2 & _ & _ & C2).
   exists s1, s2. split; [exact F1|]. split; [exact F2|]. congruence.
 Qed.
+
+(* ================================================================== histories *)
+Lemma passes_seq_inv : forall bodies st,
+  Inv st -> forallb (forallb (use_ok (map fst (f_glob st)))) bodies = true ->
+  match run_passes_seq bodies st with Safe st' => Inv st' | Unsafe k => k = OutOfBounds end.
+Proof.
+  induction bodies as [|b r IH]; intros st HI U; simpl in *; auto.
+  apply andb_true_iff in U. destruct U as [U1 U2].
+  pose proof (pass_inv b st HI U1) as H.
+  destruct (run_pass b st) as [[st1 o]|k]; simpl in *; auto.
+  destruct H as [HI1 N]. apply IH; auto. now rewrite N.
+Qed.
+
+Lemma owner_unique_fw_seq : forall setup bodies,
+  single_owner_seq setup bodies = true ->
+  match run_fw_seq setup bodies with
+  | Safe st => wf_heap st /\ tight st
+  | Unsafe k => k = OutOfBounds
+  end.
+Proof.
+  intros setup bodies G. unfold single_owner_seq in G.
+  destruct (setup_ok [] setup) as [decl|] eqn:S; try discriminate.
+  pose proof (setup_inv setup f_init decl Inv_init S) as H.
+  unfold run_fw_seq, run_setup.
+  destruct (f_block false f_init setup) as [[st0 o0]|k]; simpl in *; auto.
+  destruct H as [HI0 N0]. rewrite <- N0 in G.
+  pose proof (passes_seq_inv bodies st0 HI0 G) as H.
+  destruct (run_passes_seq bodies st0); auto. now apply Inv_wf_tight.
+Qed.
+
+Lemma passes_seq_sim : forall bodies st pst pst',
+  Inv st -> Sim pst st -> forallb (forallb (use_ok (map fst (f_glob st)))) bodies = true ->
+  py_passes_seq bodies pst = POk pst' ->
+  exists st', run_passes_seq bodies st = Safe st' /\ Inv st' /\ Sim pst' st'.
+Proof.
+  induction bodies as [|b r IH]; intros st pst pst' HI HS U P; simpl in *.
+  - injection P as <-. exists st. auto.
+  - apply andb_true_iff in U. destruct U as [U1 U2].
+    destruct (py_pass b pst) as [[pst1 o1]|e] eqn:E; cbn [pbind] in P; try discriminate.
+    simpl in P.
+    destruct (pass_sim b st pst pst1 o1 HI HS U1 E) as (st1 & F & HI1 & HS1 & N1).
+    rewrite F. cbn [rbind]. simpl. rewrite <- N1 in U2. eapply IH; eauto.
+Qed.
+
+Lemma owner_unique_py_seq : forall setup bodies pst,
+  single_owner_seq setup bodies = true -> run_py_seq setup bodies = POk pst ->
+  exists st, run_fw_seq setup bodies = Safe st /\ wf_heap st /\ tight st /\ f_live_cells st = p_live pst.
+Proof.
+  intros setup bodies pst G P. unfold single_owner_seq in G.
+  destruct (setup_ok [] setup) as [decl|] eqn:S; try discriminate.
+  unfold run_py_seq, py_setup in P.
+  destruct (p_block false p_init setup) as [[pst0 o0]|e] eqn:E; cbn [pbind] in P; try discriminate.
+  simpl in P.
+  destruct (setup_sim setup f_init p_init pst0 o0 decl Inv_init Sim_init S E) as (st0 & F & HI0 & HS0 & N0).
+  unfold run_fw_seq, run_setup. rewrite F. cbn [rbind]. simpl. rewrite <- N0 in G.
+  destruct (passes_seq_sim bodies st0 pst0 pst HI0 HS0 G P) as (st & F2 & HI & HS).
+  exists st. destruct (Inv_wf_tight st HI) as [W T]. split; [exact F2|]. split; [exact W|]. split; [exact T|].
+  symmetry. now apply sim_live.
+Qed.
+
+(* the history with one more pass: constant live data => constant heap usage *)
+Lemma no_leak_py_seq : forall setup bodies b p1 p2,
+  single_owner_seq setup (bodies ++ [b]) = true ->
+  run_py_seq setup bodies = POk p1 -> run_py_seq setup (bodies ++ [b]) = POk p2 -> p_live p1 = p_live p2 ->
+  exists s1 s2, run_fw_seq setup bodies = Safe s1 /\ run_fw_seq setup (bodies ++ [b]) = Safe s2 /\
+                f_live_cells s1 = f_live_cells s2.
+Proof.
+  intros setup bodies b p1 p2 G P1 P2 L.
+  assert (G1 : single_owner_seq setup bodies = true).
+  { unfold single_owner_seq in *. destruct (setup_ok [] setup); auto.
+    rewrite forallb_app in G. apply andb_true_iff in G. tauto. }
+  destruct (owner_unique_py_seq _ _ _ G1 P1) as (s1 & F1 & _ & _ & C1).
+  destruct (owner_unique_py_seq _ _ _ G P2) as (s2 & F2 & _ & _ & C2).
+  exists s1, s2. split; [exact F1|]. split; [exact F2|]. congruence.
+Qed.
+
+(* a gated body only ever executes guarded statements *)
+Lemma select_ok : forall decl g gates body,
+  forallb (use_ok decl) body = true -> forallb (use_ok decl) (select g gates body) = true.
+Proof.
+  intros decl g. induction gates as [|t gr IH]; intros [|s br] H; simpl in *; auto.
+  apply andb_true_iff in H. destruct H as [H1 H2].
+  destruct (t <? g)%Z; simpl; auto. rewrite H1. simpl. auto.
+Qed.
+
+Lemma single_owner_gated : forall setup body gates gvals,
+  single_owner setup body = true ->
+  single_owner_seq setup (map (fun g => select g gates body) gvals) = true.
+Proof.
+  intros setup body gates gvals G. unfold single_owner, single_owner_seq in *.
+  destruct (setup_ok [] setup) as [decl|]; auto.
+  induction gvals as [|g r IH]; simpl; auto. rewrite select_ok; auto.
+Qed.
+
+Lemma run_passes_repeat : forall body n st, run_passes body st n = run_passes_seq (repeat body n) st.
+Proof.
+  induction n as [|n IH]; intros st; simpl; auto.
+  destruct (run_pass body st) as [[st1 o]|k]; simpl; auto.
+Qed.
+
+Lemma run_fw_repeat : forall setup body n, run_fw setup body n = run_fw_seq setup (repeat body n).
+Proof.
+  intros. unfold run_fw, run_fw_seq. destruct (run_setup setup) as [[st o]|k]; simpl; auto.
+  apply run_passes_repeat.
+Qed.
